@@ -45,10 +45,23 @@ inline bool dup_keys(const MSet& m) { std::set<int64_t> ks; for (auto& p : m) { 
 
 struct Report
 {
-	long points = 0; long documented = 0; std::string bad;
+	long points = 0; long documented = 0; long pending = 0; std::string bad;
+	std::map<std::string, long> events;      // measured structural events (growth, tree height, fast path, ...) for the evidence
+	void ev(const std::string& name, long n = 1) { events[name] += n; }
 	void fail(const std::string& s) { if (bad.size() < 600) bad += (bad.empty() ? "" : " | ") + s; }
-	std::string str() const { return (bad.empty() ? "OK points=" : "BAD points=") + std::to_string(points) + " documented=" + std::to_string(documented) + (bad.empty() ? "" : " " + bad); }
+	std::string str() const
+	{
+		std::string e; for (auto& p : events) e += (e.empty() ? "" : ",") + p.first + ":" + std::to_string(p.second);
+		return (bad.empty() ? "OK points=" : "BAD points=") + std::to_string(points) + " documented=" + std::to_string(documented) + " pending=" + std::to_string(pending)
+			+ " ev=" + (e.empty() ? "-" : e) + (bad.empty() ? "" : " " + bad);
+	}
 };
+
+// measured shape of a container (private access): number of hash buckets over all generations / height of a tree; 0 if not applicable
+template<typename S> inline auto bucket_count(const S& s, int) -> decltype((void)s.mBuckets, size_t()) { size_t n = 0; for (auto* b = s.mBuckets; b != nullptr; b = b->GetNextBuckets()) n += b->GetCount(); return n; }
+template<typename S> inline size_t bucket_count(const S&, long) { return 0; }
+template<typename S> inline auto tree_height(const S& s, int) -> decltype((void)s.mRootNode, size_t()) { size_t h = 0; for (auto* n = s.mRootNode; n != nullptr; n = n->IsLeaf() ? nullptr : n->GetChild(0)) ++h; return h; }
+template<typename S> inline size_t tree_height(const S&, long) { return 0; }
 
 struct Counters { uint64_t copy, copy_assign; };
 inline Counters snap() { return Counters{ kit::W().n_copy, kit::W().n_copy_assign }; }
